@@ -6,6 +6,7 @@ package main
 import (
 	"bytes"
 	"fmt"
+	"io"
 	"os"
 	"path/filepath"
 	"sort"
@@ -13,6 +14,7 @@ import (
 	"strings"
 
 	"github.com/pdfcpu/pdfcpu/pkg/api"
+	"github.com/pdfcpu/pdfcpu/pkg/pdfcpu"
 	"verif/cmd/c33/pgdoc"
 	"verif/vh"
 )
@@ -106,9 +108,15 @@ type doc struct {
 	pages []pgdoc.VPage
 }
 
-func mkdoc(t *pgdoc.Node, name string) *doc {
+func mkdoc(t *pgdoc.Node, name string) *doc { return mkdocN(t, name, nil) }
+
+// mkdocN writes the document with the given object numbering (nil: dense; see pgdoc.Sparse).
+func mkdocN(t *pgdoc.Node, name string, nb *pgdoc.Numbering) *doc {
 	d := &doc{t: t, path: tmp(name)}
-	d.bytes = pgdoc.PDF(t)
+	d.bytes = pgdoc.PDFWith(t, nb)
+	if nb != nil {
+		r.Count("numbering:sparse")
+	}
 	if err := os.WriteFile(d.path, d.bytes, 0o644); err != nil {
 		panic(err)
 	}
@@ -368,7 +376,58 @@ func splitAlong(n int, nrs []int, kind int) {
 	os.Remove(d.path)
 }
 
-func mergeCase(m int, divider, appendMode bool, kinds []int) {
+// renumberCase: the renumbering of a merge source into the destination's number space
+// (patchSourceObjectNumbers through the verif hook): K against the model's fresh numbers, O: no renumbered
+// source object lands on a number the destination uses.
+func renumberCase(dest, src *doc, input map[string]any) {
+	guard("patchSourceObjectNumbers", input, func() error {
+		cd, err := api.ReadContextFile(dest.path)
+		if err != nil {
+			return nil
+		}
+		cs, err := api.ReadContextFile(src.path)
+		if err != nil {
+			return nil
+		}
+		dsize, nsrc := *cd.Size, len(cs.Table)-1
+		if err := pdfcpu.VerifPatchSourceObjectNumbers(cs, cd); err != nil {
+			r.Case("renumber", []string{vh.Int(int64(dsize)), vh.Int(int64(nsrc))}, "err")
+			return nil
+		}
+		lo, hi, cnt, clash := -1, -1, 0, -1
+		for k := range cs.Table {
+			if k == 0 {
+				continue
+			}
+			cnt++
+			if lo < 0 || k < lo {
+				lo = k
+			}
+			if k > hi {
+				hi = k
+			}
+			if _, used := cd.Table[k]; used {
+				clash = k
+			}
+		}
+		got := "none"
+		if cnt > 0 {
+			got = fmt.Sprintf("%x-%x-%x", lo, hi, cnt)
+		}
+		r.Case("renumber", []string{vh.Int(int64(dsize)), vh.Int(int64(nsrc))}, got)
+		if clash >= 0 || (cnt > 0 && lo < dsize) {
+			r.OracleFail("merge-renumber-hits-destination-object", input,
+				fmt.Sprintf("source objects renumbered to %d..%d, destination Size %d, %d table entries, clash at %d", lo, hi, dsize, len(cd.Table), clash))
+		} else {
+			r.OracleOK()
+		}
+		return nil
+	})
+}
+
+// mergeCase: mode 0 MergeCreateFile, 1 MergeAppendFile (docs[0] is the existing destination), 2 MergeRaw.
+// sparse[i]: document i is written with holes in its object numbering.
+func mergeCase(m int, divider bool, mode int, kinds []int, sparse []bool) {
 	var docs []*doc
 	id := 1
 	for i := 0; i < m; i++ {
@@ -376,7 +435,12 @@ func mergeCase(m int, divider, appendMode bool, kinds []int) {
 		o.FirstID = id
 		n := 1 + r.Rand.Intn(6)
 		id += n
-		docs = append(docs, mkdoc(pgdoc.Gen(r.Rand, n, o), fmt.Sprintf("m%d.pdf", i)))
+		var nb *pgdoc.Numbering
+		if sparse[i] {
+			nb = pgdoc.Sparse(r.Rand)
+			r.Count(fmt.Sprintf("sparse-position:%d-of-%d", i+1, m))
+		}
+		docs = append(docs, mkdocN(pgdoc.Gen(r.Rand, n, o), fmt.Sprintf("m%d.pdf", i), nb))
 	}
 	enc := make([]string, m)
 	paths := make([]string, m)
@@ -384,15 +448,32 @@ func mergeCase(m int, divider, appendMode bool, kinds []int) {
 		enc[i] = d.t.Encode()
 		paths[i] = d.path
 	}
-	op := "MergeCreateFile"
-	if appendMode {
-		op = "MergeAppendFile"
+	appendMode := mode == 1
+	op := []string{"MergeCreateFile", "MergeAppendFile", "MergeRaw"}[mode]
+	input := map[string]any{"op": op, "docs": enc, "divider": divider, "sparse": sparse}
+	if m >= 2 {
+		renumberCase(docs[0], docs[1], input)
 	}
-	input := map[string]any{"op": op, "docs": enc, "divider": divider}
 	out := tmp("merged.pdf")
 	var err error
 	if guard(op, input, func() error {
-		if appendMode {
+		if mode == 2 {
+			var rsc []io.ReadSeeker
+			for _, p := range paths {
+				f, e := os.Open(p)
+				if e != nil {
+					return e
+				}
+				defer f.Close()
+				rsc = append(rsc, f)
+			}
+			w, e := os.Create(out)
+			if e != nil {
+				return e
+			}
+			defer w.Close()
+			err = api.MergeRaw(rsc, w, divider, nil)
+		} else if appendMode {
 			// the first document is the existing destination file
 			if err := os.WriteFile(out, docs[0].bytes, 0o644); err != nil {
 				return err
@@ -460,12 +541,89 @@ func mergeCase(m int, divider, appendMode bool, kinds []int) {
 	}
 }
 
+// splitMerge: split a sparsely numbered document by span and merge the parts again:
+// the marker sequence must be the original one.
+func splitMerge(n, span, kind int) {
+	t := pgdoc.Gen(r.Rand, n, genOpt(kind))
+	d := mkdocN(t, "sm.pdf", pgdoc.Sparse(r.Rand))
+	input := map[string]any{"op": "SplitFile+MergeCreateFile", "tree": t.Encode(), "span": span, "sparse": true}
+	outDir := tmp("smout")
+	os.MkdirAll(outDir, 0o755)
+	defer os.RemoveAll(outDir)
+	var err error
+	if guard("SplitFile", input, func() error { err = api.SplitFile(d.path, outDir, span, nil); return nil }) != nil {
+		return
+	}
+	if err != nil {
+		r.OracleFail("split-span-fails", input, err.Error())
+		return
+	}
+	base := strings.TrimSuffix(filepath.Base(d.path), ".pdf")
+	ps, err := readParts(outDir, base)
+	if err != nil {
+		r.OracleFail("split-span-unreadable-output", input, err.Error())
+		return
+	}
+	var paths, enc []string
+	for _, p := range ps {
+		paths = append(paths, filepath.Join(outDir, spanName(base, p.from, p.thru)))
+		enc = append(enc, pgdoc.EncodeFlat(p.pages))
+	}
+	// the sparse original once more at the end: a sparse document in the last position
+	paths = append(paths, d.path)
+	enc = append(enc, t.Encode())
+	out := tmp("sm-merged.pdf")
+	if guard("MergeCreateFile", input, func() error { err = api.MergeCreateFile(paths, out, false, nil); return nil }) != nil {
+		return
+	}
+	r.Count("merge:split+merge")
+	args := append([]string{vh.Bool(false)}, enc...)
+	if err != nil {
+		r.Case("merge", args, "err")
+		r.OracleFail("merge-fails", input, err.Error())
+		return
+	}
+	got, err := pgdoc.ReadPages(out)
+	if err != nil {
+		r.Case("merge", args, "unreadable:"+err.Error())
+		r.OracleFail("merge-unreadable-output", input, err.Error())
+		return
+	}
+	r.Case("merge", args, "ok:"+pgdoc.Canon(got, true))
+	want := append(append([]int{}, pgdoc.IDs(d.pages)...), pgdoc.IDs(d.pages)...)
+	switch {
+	case !eqInts(pgdoc.IDs(got), want):
+		r.OracleFail("merge-page-sequence", input, fmt.Sprintf("markers %v, expected %v", pgdoc.IDs(got), want))
+	case !d.unchanged():
+		r.OracleFail("merge-input-modified", input, "an input file changed")
+	default:
+		r.OracleOK()
+	}
+	os.Remove(out)
+	os.Remove(d.path)
+}
+
+func spanName(base string, from, thru int) string {
+	if from == thru {
+		return fmt.Sprintf("%s_%d.pdf", base, from)
+	}
+	return fmt.Sprintf("%s_%d-%d.pdf", base, from, thru)
+}
+
 func zipCase(na, nb, ka, kb int) {
 	oa, ob := genOpt(ka), genOpt(kb)
 	ob.FirstID = 100
-	a := mkdoc(pgdoc.Gen(r.Rand, na, oa), "za.pdf")
-	b := mkdoc(pgdoc.Gen(r.Rand, nb, ob), "zb.pdf")
-	input := map[string]any{"op": "MergeCreateZipFile", "a": a.t.Encode(), "b": b.t.Encode()}
+	var nba, nbb *pgdoc.Numbering
+	if r.Rand.Intn(2) == 0 {
+		nba = pgdoc.Sparse(r.Rand)
+	}
+	if r.Rand.Intn(3) == 0 {
+		nbb = pgdoc.Sparse(r.Rand)
+	}
+	a := mkdocN(pgdoc.Gen(r.Rand, na, oa), "za.pdf", nba)
+	b := mkdocN(pgdoc.Gen(r.Rand, nb, ob), "zb.pdf", nbb)
+	input := map[string]any{"op": "MergeCreateZipFile", "a": a.t.Encode(), "b": b.t.Encode(), "sparse": []bool{nba != nil, nbb != nil}}
+	renumberCase(a, b, input)
 	out := tmp("zip.pdf")
 	var err error
 	if guard("MergeCreateZipFile", input, func() error { err = api.MergeCreateZipFile(a.path, b.path, out, nil); return nil }) != nil {
@@ -578,7 +736,30 @@ func main() {
 		for j := range kinds {
 			kinds[j] = r.Rand.Intn(6)
 		}
-		mergeCase(m, r.Rand.Intn(2) == 0, m > 1 && r.Rand.Intn(2) == 0, kinds)
+		mode := r.Rand.Intn(3)
+		if m == 1 && mode == 1 {
+			mode = 0
+		}
+		sparse := make([]bool, m)
+		switch i % 4 { // sparse numbering in the first / a middle / the last position, or at random
+		case 0:
+			sparse[0] = true
+		case 1:
+			sparse[m/2] = true
+		case 2:
+			sparse[m-1] = true
+		default:
+			for j := range sparse {
+				sparse[j] = r.Rand.Intn(2) == 0
+			}
+		}
+		mergeCase(m, r.Rand.Intn(2) == 0, mode, kinds, sparse)
+	}
+
+	// split a sparsely numbered document and merge the parts (plus the sparse original) again
+	for i := 0; i < r.Pick(30, 200); i++ {
+		n := 2 + r.Rand.Intn(r.Pick(8, 16))
+		splitMerge(n, 1+r.Rand.Intn(n), i)
 	}
 
 	// zip merges: all length pairs up to 6 (quick) / 9, random kinds
